@@ -29,7 +29,7 @@ def r061_matrix(ctx):
     A = Analysis(ctx)
     fq = M_UP + ":UtilityParity.load_data"
     r = A.run(fq, cls_ctx=M_UP + ":UtilityParity")
-    stores = [e for e in r.events if e.kind == "store" and e.data["tkind"] == "sub" and e.func == fq
+    stores = [e for e in r.events if e.kind == "store" and e.data["tkind"] == "sub"
               and e.data["key"].op == "tuple" and len(e.data["key"].args[0]) == 3
               and is_str_const(e.data["key"].args[0][0]) and const_value(e.data["key"].args[0][0]) in ("+", "-")]
     ctx.floor("R06.1", "signed column stores into the U matrix", len(stores), 2)
@@ -73,20 +73,20 @@ def r061_matrix(ctx):
     # probabilities by definition
     for attr, src in (("prob_event", "self.tags.groupby(_EVENT).size() / self.total_samples"),
                       ("prob_group_event", "self.tags.groupby([_EVENT, _GROUP_ID]).size() / self.total_samples")):
-        st = [e for e in stores_attr(r, attr) if e.func == fq]
+        st = list(stores_attr(r, attr))
         ctx.floor("R06.1", f"definition of {attr}", len(st), 1)
         for e in st:
             A.formula("R06.1", fq, e.node, e.data["value"], A.at(e, src), f"definition of {attr}",
                       construct=f"{attr} definition")
     # tags[EVENT] is the event argument
-    ev_st = [e for e in r.events if e.kind == "store" and e.data["tkind"] == "sub" and e.func == fq
+    ev_st = [e for e in r.events if e.kind == "store" and e.data["tkind"] == "sub"
              and A.eq(e.data["key"], A.at(e, "_EVENT"))]
     ctx.floor("R06.1", "store of the event column", len(ev_st), 1)
     for e in ev_st:
         ctx.ob("R06.1", fq, e.node, e.data["value"] is r.params["event"],
                "tags[event] is the event series handed to load_data", construct="tags[event] = event")
     # the index: +/- concatenation of the pairs
-    st = [e for e in stores_attr(r, "_index") if e.func == fq]
+    st = list(stores_attr(r, "_index"))
     ctx.floor("R06.1", "definition of the constraint index", len(st), 1)
     for e in st:
         v = A.C.canon(e.data["value"])
@@ -121,7 +121,7 @@ def r062_gamma_bound(ctx):
     cls = M_UP + ":UtilityParity"
     fq = cls + ".gamma"
     r = A.run(fq, cls_ctx=cls)
-    calls = [e for e in r.events if e.kind == "call" and e.func == fq and e.data["fterm"] is r.params["predictor"]]
+    calls = [e for e in r.events if e.kind == "call" and e.data["fterm"] is r.params["predictor"]]
     ctx.floor("R06.2", "calls of the predictor in gamma", len(calls), 1)
     h = calls[0].data["result"]
     ctx.ob("R06.2", fq, calls[0].node, A.eq(arg(calls[0], 0), A.entry(r, "self.X")),
